@@ -29,7 +29,8 @@ func runC06(c *Ctx, r *Report, tier string) {
 	r.Rule("SELECT", "an option is appended to the missing list under exactly ¬isSet ∧ Required (AG), ranging over Group.options of every nested group (eachGroup)", 3)
 	r.Rule("POSITIONAL", "positional constraints only when no option is missing; compared quantities are Arg.Required / Arg.RequiredMaximum / Value.Len(Arg.value) / ArgsRequired of parseState.command", 5)
 	r.Rule("RESULT", "failing exits store newError(ErrRequired, …) into parseState.err and return it; every element of the missing list is named", 4)
-	r.Rule("ISSET", "WHO(store Option.isSet) ⊆ {(*Option).Set: true}; in Set every return is MPT(via store isSet = true)", 2)
+	r.Rule("ISSET", "WHO(store Option.isSet) ⊆ {(*Option).Set, (*Parser).parseOption: true}; in Set every return is MPT(via store isSet = true)", 2)
+	r.Rule("SUPPLIED", "every nil-error return of parseOption is MPT(via Option.Set or store isSet = true)", 1)
 
 	pa := c.mustFn(r, "(*Parser).ParseArgs")
 	cr := c.mustFn(r, "(*parseState).checkRequired")
@@ -407,8 +408,25 @@ func runC06(c *Ctx, r *Report, tier string) {
 	set2 := c.mustFn(r, "(*Option).Set")
 	if isSet != nil && set2 != nil {
 		for _, s := range c.storesTo(isSet) {
-			ok := c.actsFor(s.Fn, set2) && c.term(s.Store.Val) == "true"
-			r.Check(ok, "ISSET", c.fname(s.Fn), "store Option.isSet", c.ipos(s.Store), "in Set, constant true", "Option.isSet stored in "+c.fname(s.Fn)+" with value "+c.term(s.Store.Val))
+			po := c.Fn("(*Parser).parseOption")
+			ok := (c.actsFor(s.Fn, set2) || (po != nil && c.actsFor(s.Fn, po))) && c.term(s.Store.Val) == "true"
+			r.Check(ok, "ISSET", c.fname(s.Fn), "store Option.isSet", c.ipos(s.Store), "in Set or in parseOption (the occurrence handler), constant true", "Option.isSet stored in "+c.fname(s.Fn)+" with value "+c.term(s.Store.Val))
+		}
+		// SUPPLIED: an occurrence that parseOption accepts marks the option as supplied, whichever branch handled it
+		if po := c.mustFn(r, "(*Parser).parseOption"); po != nil {
+			mark := orPred(c.isCallTo("(*Option).Set"), func(in ssa.Instruction) bool {
+				st, ok := in.(*ssa.Store)
+				return ok && c.isStoreTo(isSet)(in) && c.term(st.Val) == "true"
+			})
+			for _, ret := range returnsOf(po) {
+				if mi, ok := ret.Results[0].(*ssa.MakeInterface); ok {
+					if call, ok := mi.X.(*ssa.Call); ok && (c.calleeName(call.Common()) == "newErrorf" || c.calleeName(call.Common()) == "newError") {
+						continue
+					}
+				}
+				path, ok := c.MustPass(po, isInstr(ret), orPred(mark, c.isCallTo("newErrorf", "newError")), func(l Lit) bool { return l.Pos && strings.HasPrefix(l.Term, "nonnil(phi{") }, nil)
+				r.Check(ok, "SUPPLIED", c.fname(po), "an accepted occurrence marks the option as supplied", c.ipos(ret), "every nil-error path passes Option.Set or a store isSet = true", "an occurrence is accepted without marking the option set, so a required option given this way is reported missing: "+pathStr(path))
+			}
 		}
 		for _, ret := range returnsOf(set2) {
 			c.mptRule(r, "ISSET", set2, ret, "return of Set", func(in ssa.Instruction) bool {
